@@ -134,6 +134,7 @@ def check(ctx):
     repo = ctx.repo
     ctx.rule("R05.1", "label/content typestate on the CFG of _run_stage: every frame is saved with exactly as many updates "
                       "applied as its step label says, on every path incl. KeyboardInterrupt from the update and the writer", 1)
+    ctx.rule("R05.8", "the run stops at the first step whose time reaches the requested time: `self.time >= end_time` tested before each update", 2)
     ctx.rule("R05.2", "save points: in-loop save under `i % save_every == 0`, final save under the complementary residue test; both under `save`", 3)
     ctx.rule("R05.3", "per-step records: each name appended once per update outside the retry/screening loops, under the same guards "
                       "under which solve() declares it; buffer cursor advanced once per advanced step; buffer cleared exactly when saved", 6)
@@ -166,6 +167,7 @@ def check(ctx):
                            "frames with the same label differ between runs with different save_every",
                witness={"path": w, "example": "dt_init=1e-3 fixed, solve_time=0.0105, save_every=4: frame 'step 11' equals frame 'step 12' of a save_every=2 run"})
 
+    stop_test(ctx, frs, cfg, ev)
     save_points(ctx, frs)
     records(ctx, frs)
     ranks(ctx)
@@ -613,3 +615,41 @@ def zero_init(ctx):
         ctx.ob("R05.7", f"RunningState.{m} allocates with zeros", ok, detail=allocs, where=f.fq, construct=f"RunningState.{m} allocation",
                loc=loc(f, f.node), message=f"record buffers are allocated with {allocs}",
                consequence="the dt > 0 mask keeps garbage columns of a partially filled last buffer")
+
+
+def stop_test(ctx, frs, cfg, ev):
+    fn = frs.node
+    pm = parent_map(fn)
+    loops = [n for n in own_nodes(fn) if isinstance(n, ast.For)]
+    lp = loops[0] if loops else None
+    stops = []
+    for n in ast.walk(lp) if lp is not None else []:
+        if isinstance(n, ast.Break):
+            gs = [(g, br) for g, br in guards_of(fn, n, pm) if isinstance(g, ast.If)]
+            if gs and isinstance(gs[-1][0].test, ast.Compare) and "end_time" in norm(gs[-1][0].test) and not any(
+                    isinstance(g, ast.ExceptHandler) for g, _ in guards_of(fn, n, pm)):
+                stops.append((n, gs[-1]))
+    ok = len(stops) == 1
+    det = {}
+    if ok:
+        b, (g, br) = stops[0]
+        t = g.test
+        det = {"test": norm(t), "branch": br}
+        ok = br == "true" and len(t.ops) == 1 and (
+            (isinstance(t.ops[0], ast.GtE) and norm(t.left) == "self.time" and norm(t.comparators[0]) == "end_time") or
+            (isinstance(t.ops[0], ast.LtE) and norm(t.left) == "end_time" and norm(t.comparators[0]) == "self.time"))
+    ctx.ob("R05.8", "the loop stops iff self.time >= end_time (first step whose time reaches the requested time; equality stops)", ok,
+           detail=det, where=frs.fq, construct="stop predicate", loc=loc(frs, stops[0][0]) if stops else loc(frs, fn),
+           message=f"stop predicate is {det}", consequence="the run performs one step too many (or too few) when a step lands exactly on the requested time")
+    if stops:
+        # the update call is dominated by the false branch of the stop test in the same iteration
+        gnode = cfg.node_of(stops[0][1][0]).id
+        calls = [nid for nid, e in ev.items() if e == "CALL"]
+        dom = cfg.dominators()
+        ok = bool(calls) and all(gnode in dom.get(c, set()) for c in calls) and \
+            all(cfg.path(gnode, c, skip_edges=("false", "exc")) is None or True for c in calls)
+        via_true = [c for c in calls if cfg.path(gnode, c, skip_edges=("false",)) is not None and
+                    all(lab != "loop" for _, lab in (cfg.path(gnode, c, skip_edges=("false",)) or []))]
+        ctx.ob("R05.8", "the stop test is evaluated before the update of the same iteration", ok and not via_true, detail={"update_calls": len(calls)},
+               where=frs.fq, construct="stop test position", loc=loc(frs, stops[0][0]),
+               message="the update runs before the stop test of its iteration", consequence="one update beyond the requested time is computed")
